@@ -174,6 +174,7 @@ theorem goodOp_cond (c1 c2 : Nat) (hmem : lower [c1, c2] ∈ condLits) :
     simp only [operandRest, hcp, mapR_some, wordEnd_follow _ rest hf', orElseR_some_left]
   · intro g rest hg hf
     have hf' : Follow rest := hf
+    apply shiftOp_none_of_clitOr
     apply clitOr_none
     intro l hl
     obtain ⟨hlen, hthird⟩ := shiftOps_third l hl
